@@ -9,6 +9,9 @@
      ts         ok | stale  (metadata timestamp within one minute of the server's clock)
      dup        1 iff the replay cache holds the header's first 16 bytes (with a conflicting tag)
      sid        session id of the openSessionRequest (default 7)
+     plen slen  (optional) payload length and suffix padding length announced by the metadata of the complete
+                first segment the probe was cut from / extended: the toy segment is header ++ payload box
+                (plen + 16 bytes, absent when plen = 0) ++ slen padding bytes, truncated or extended to len
    The extracted model (tcp_front / udp_front of model/ServerFront.v) is instantiated with a toy cipher:
    a header opens under key 1 iff byte 56 is 101; the cache answers [dup].  The runner builds a toy input of
    the same length and attributes and prints what the model predicts:
@@ -40,19 +43,28 @@ let () =
     | _tag :: transport :: _kind :: len :: _field :: hdr :: opens :: ts :: dup :: rest ->
       let len = int_of_string len and opens = (opens = "1") and dup = (dup = "1") in
       let sid = (match rest with s :: _ -> int_of_string s | [] -> 7) in
+      let shaped = (match rest with [_; pl; sl] -> Some (int_of_string pl, int_of_string sl) | _ -> None) in
       if (hdr = "1") <> (len >= 72) then print_endline "bad-case: hdr flag contradicts len"
       else begin
         let minute_now = int_of_z (minute now_z) in
         let stamp = if ts = "ok" then minute_now else minute_now - 10 in
         (* openSessionRequest, session id sid, no payload, suffix padding = whatever follows the header on UDP *)
-        let pad = if transport = "udp" && len > 72 then min (len - 72) 255 else 0 in
-        let meta = [nb 2; nb 0] @ be32 stamp @ be32 sid @ be32 0 @ [nb 0; nb 0; nb 0; nb pad] @ rep (nb 0) 14 in
+        let (plen, pad) = (match shaped with
+          | Some (pl, sl) -> (pl, sl)
+          | None -> (0, if transport = "udp" && len > 72 then min (len - 72) 255 else 0)) in
+        let meta = [nb 2; nb 0] @ be32 stamp @ be32 sid @ be32 0 @ [nb 0; nb (plen / 256); nb (plen mod 256); nb pad] @ rep (nb 0) 14 in
         let header =
           if opens then rep (nb 0) 24 @ meta @ [nb 101] @ rep (nb 0) 15
           else rep (nb 170) 72 in
         let input =
-          if len >= 72 then header @ rep (nb 9) (len - 72)
-          else List.filteri (fun i _ -> i < len) header in
+          (match shaped with
+           | Some (pl, sl) ->
+             let full = header @ (if pl > 0 then rep (nb 9) (pl + 16) else []) @ rep (nb 7) sl in
+             let fl = List.length full in
+             if len <= fl then List.filteri (fun i _ -> i < len) full else full @ rep (nb 5) (len - fl)
+           | None ->
+             if len >= 72 then header @ rep (nb 9) (len - 72)
+             else List.filteri (fun i _ -> i < len) header) in
         let rc_dup (c : unit) _ _ _ = (dup, c) in
         let src = [nb 49] in
         if transport = "tcp" then begin
